@@ -30,8 +30,8 @@ CLAIMED = {
    ref="DESIGN.md §4 C10"),
  "C19": dict(
    technique="bounded explicit-state model checking: exhaustive enumeration of all formats of 1-2 tokens (17 tokens x 57 separator strings), all 3-token formats (x 9 separator pairs), 16-token rotations and the nine constants x a 55-epoch sub-lattice through the real Format::from_str + Formatter, all 2 879 %z offsets, and parse-back of up to 52 000 full date-time formats, judged by per-token reference pieces",
-   text="For every enumerated (format, epoch) the real output must equal the concatenation of per-token reference pieces (civil fields of the epoch in its own scale, English names, weekday of the printed date) and exactly the format's separators. The six documented constants must equal Format::from_str(documented string); all nine are rendered and compared, incl. optional tokens; ISO8601 formatter == Display for non-zero nanoseconds; %z is checked for every offset -23:59..+23:59 incl. parse-back of the local time; all 5 040 orders of the seven numeric tokens and all 46 656 separator assignments; Formatter::to_time_scale / set_timezone over 7 target scales plus name/ordinal formats are rendered for UTC epochs and parsed back through three entry points.",
-   note="%y's own text is not pinned by the statement (counted don't-care); %J/%w are compared with the accessors. ISO8601 == Display is not judged for whole seconds: the statement's nine-digit %f rule and its display rule contradict each other there.",
+   text="For every enumerated (format, epoch) the real output must equal the concatenation of per-token reference pieces (civil fields of the epoch in its own scale, English names, weekday of the printed date) and exactly the format's separators. All nine constants must equal Format::from_str(the string they stand for); all nine are rendered and compared, incl. optional tokens; ISO8601 formatter == Display for non-zero nanoseconds; %z is checked for every offset -23:59..+23:59 incl. parse-back of the local time; all 5 040 orders of the seven numeric tokens and all 46 656 separator assignments; Formatter::to_time_scale / set_timezone over 7 target scales plus name/ordinal formats are rendered for UTC epochs and parsed back through three entry points.",
+   note="%y is pinned for the years 2000-2099 (two digits; documentation, parser and C89 agree there) and a don't-care elsewhere; %J is compared with the accessor, %w is the C89 number of the weekday of the printed date. ISO8601 == Display is not judged for whole seconds: the statement's nine-digit %f rule and its display rule contradict each other there.",
    ref="DESIGN.md §4 C19"),
  "C11": dict(
    technique="bounded explicit-state model checking: exhaustive enumeration of the unit-multiple duration lattice through the real decompose/Display/FromStr/serde chain, and of the parser's complete spelling, component-subset and offset tables, judged by integer decomposition and a reference renderer",
@@ -121,7 +121,7 @@ EXTRA = {
  "C16": " The epoch part runs on epochs of all nine scales (own-scale civil date-times; don't-care where the TAI and own-scale dates differ).",
  "C17": " The origin of every view (JD 0, MJD 0, UNIX 0, J2000, 1900) is a lattice anchor; {:p} must print to_unix_seconds().",
  "C18": " compose_f64: sign over {i8::MIN,-1,0,1,i8::MAX}.",
- "C19": " Sub-second digit-group lattice {000,001,250,999}^3 through the nine constants and %f; to_isoformat; %w accepts either weekday reading.",
+ "C19": " Sub-second digit-group lattice {000,001,250,999}^3 through the nine constants and %f; to_isoformat; %w is the weekday of the printed (own-scale) date.",
  "C20": " Day-of-year sweep includes every leap-second year and the next, day fractions up to 1-1e-9, and duration_in_year read directly.",
 }
 # what the audit round added / tightened (DESIGN.md §6.3)
@@ -129,16 +129,24 @@ AUDIT = {
  "C02": " The non-failing 64-bit accessor may return the i64 bound only when the count does not fit.",
  "C04": " Float seconds include integer-valued floats whose product with 1e9 is inexact in f64.",
  "C06": " Inside an inserted interval only the entry's UTC timestamp or the nanosecond before it do not go backwards; today's convention is known finding D37.",
- "C10": " Numeric forms: exact integer expectation, tolerance 8 ulp of the value itself + 2 ns.",
- "C11": " Parsed numbers are compared with the value the decimal text denotes (30 values incl. 4.1, 0.57 and counts beyond 2^53 ns).",
+ "C10": " Numeric forms: exact integer expectation, tolerance 8 ulp of the value itself + 1 ns (C18's truncation of a float count of a unit).",
+ "C11": " Parsed numbers are compared with the value the decimal text denotes (36 values incl. 4.1, 0.57, counts beyond 2^53 ns and fractions of 22-40 digits).",
  "C12": " c12.far[cross]: two different uniform scales near the range ends (known finding D51 where the conversion saturates).",
  "C14": " ceil is judged also when the floor is below the range.",
  "C15": " Spans equal to Duration::MAX; for mixed-scale series across a leap second either span reading is accepted.",
  "C16": " The _at_midnight/_at_noon variants are judged for every epoch of every scale.",
  "C17": " Constructors from_jde_et/from_jde_tdb and the GNSS wrappers; tolerance 8 ulp of max(|x|, one second) + 1 ns truncation.",
- "C19": " Offsets are parsed back with the same format; structure families of formats (extra tokens, names in every position, two-character separators, missing separators), six structural classes being known findings D43-D48.",
+ "C19": " Offsets are parsed back with the same format; structure families of formats (extra tokens, names in every position, two-character separators, missing separators), seven structural classes being known findings D43-D48, D59.",
  "C20": " The {:o} form prints the GPST count or returns a formatting error.",
 }
+# what the second audit round added / tightened (DESIGN.md §6.4)
+AUDIT2 = {
+ "C13": " c13.range_fmt also puts a sign in front of every numeric field of five formats and overrides a month/day field by %j, a repetition or a month name (second audit round).",
+ "C15": " When the two span readings differ and the longer cannot be stepped through, the short count or a correct 1000-item prefix beyond it is required.",
+ "C19": " %w and %y pinned, name tokens without a separator and %y formats in the parse-back structures (second audit round).",
+}
+for _k, _v in AUDIT2.items():
+    AUDIT[_k] = AUDIT.get(_k, "") + _v
 for _k, _v in AUDIT.items():
     EXTRA[_k] = EXTRA.get(_k, "") + _v
 for _k, _v in EXTRA.items():
